@@ -494,6 +494,32 @@ func init() {
 				// orphan bookkeeping is memory-only
 				core.NoCallsIn{Fns: []string{mdb + "removeOrphan", mdbD + "RemoveNode"}, Forbidden: append(append([]string{}, durable...), "common/db.Batch.Delete", "common/db.Batch.Set"), Why: "orphan bookkeeping must not touch persisted nodes"}.Check(r)
 			}),
+			rule("R04f", "a read at a root with no pending tree (absent entry, or the nil marker of an empty update) is served from the database", 3, func(r *Run) {
+				fn := mst + "Get"
+				load := "system/store/mavl/db.(*Tree).Load"
+				noPending := func(c *core.Ctx, e ast.Expr) core.Tri {
+					// the value found under the root is nil
+					if op, ok := core.CmpAtom(c, e, core.FromCall(0, "sync.(*Map).Load"), isNilLit); ok {
+						return map[bool]core.Tri{true: core.True, false: core.False}[op == token.EQL]
+					}
+					return core.Unknown
+				}
+				absent := func(c *core.Ctx, e ast.Expr) core.Tri {
+					if id, ok := ast.Unparen(e).(*ast.Ident); ok && core.FromCall(1, "sync.(*Map).Load")(c, id) {
+						return core.False
+					}
+					return core.Unknown
+				}
+				for _, x := range []struct {
+					as   core.AssumeFn
+					what string
+				}{{noPending, "the entry under the root is the nil marker"}, {absent, "no entry under the root"}} {
+					core.Dominated{Fn: fn, Spec: &core.FlowSpec{Assume: x.as, Calls: []core.CallGuard{called("loaded-from-db:"+core.Fact(x.what), load)}}, Sink: core.AnyReturn(),
+						Need: []Fact{"loaded-from-db:" + core.Fact(x.what)}, Min: 1}.Check(r)
+				}
+				core.CallArgs{Fn: fn, Callee: []string{load}, What: "loads the requested root", Args: map[int]core.ExprPred{0: core.Mentions("types.StoreGet.StateHash")}, Min: 1}.Check(r)
+			}),
+			iterBufferRule("R04e", 3, "system/store/mavl/db"),
 			rule("R04c", "shared process state is accessed under its lock", 6, func(r *Run) {
 				underLock(r, mdb+"maxBlockHeight", mdb+"heightMtx", 3, nil)
 				underLock(r, mdb+"nodeDB.orphans", mdb+"nodeDB.mtx", 3, map[string]string{mdb + "newNodeDB": "constructor: the value is not shared yet"})
@@ -642,6 +668,7 @@ func init() {
 					Allowed: []string{mdb + "pruningFirstLevel", mdb + "pruningSecondLevel", mdb + "pruningTree"}, Min: 4}.Check(r)
 				core.WhoMayCall{Targets: []string{mdb + "pruningTree"}, Allowed: []string{mdb + "pruning", mdb + "PruningTree"}, Min: 1}.Check(r)
 			}),
+			iterBufferRule("R05d", 3, "system/store/mavl/db"),
 			rule("R05c", "the global maximum height is read and written under its mutex", 3, func(r *Run) {
 				underLock(r, mdb+"maxBlockHeight", mdb+"heightMtx", 3, nil)
 			}),
